@@ -43,7 +43,7 @@ def parser_obj(ip, cls=ClientFrameParser, frame_class=Frame, name='parser'):
     return p, v
 
 
-@contract('lomond.frame_parser.FrameParser.parse', serves=['C01', 'C02', 'C04', 'C05', 'C10', 'C14'])
+@contract('lomond.frame_parser.FrameParser.parse', serves=['C01', 'C02', 'C04', 'C05', 'C10', 'C14', 'C18'])
 class Parse(ProducerContract):
     coroutine = True
 
